@@ -50,4 +50,33 @@ theorem dnsmsg_ttl_if_lower_ret_src : dnsmsg_ttl_if_lower_ret = "ttl | min(r.Hea
 /-- `SetMinTTL` raises (never lowers) answer TTLs (`raiseTTL`). -/
 theorem dnsmsg_set_min_ttl_src : dnsmsg_set_min_ttl = "max(h.Ttl, minTTL)" := by decide
 
+/-- `itemFromCache`: a key collision of the 64-bit hash is detected by comparing the stored host (the
+model takes the hash as injective; this check is what makes that sound for the name part). -/
+theorem ecs_item_host_check_src : ecs_item_host_check = "!ok | item.host != cr.host" := by decide
+/-- `toCacheKey` (ECS): what is hashed, in this order (`Key.noecs` / `Key.ecs`). -/
+theorem ecs_key_host_src : ecs_key_host = "cr.host" := by decide
+theorem ecs_key_qtype_src : ecs_key_qtype = "buf[:2], cr.qType" := by decide
+theorem ecs_key_qclass_src : ecs_key_qclass = "buf[2:4], cr.qClass" := by decide
+theorem ecs_key_fam_src : ecs_key_fam = "mathutil.BoolToNumber[byte](addr.Is6())" := by decide
+theorem ecs_key_writes_src : ecs_key_writes = "WriteString,Write,Write,WriteByte,WriteByte" := by decide
+theorem ecs_key_write_args_src : ecs_key_write_args = "byte(cr.subnet.Bits())" := by decide
+/-- The caches keep private copies: `set` clones what it stores, `fromCacheItem` clones what it serves
+(`Store.put` / `hit` work on values). -/
+theorem ecs_set_clones_src : ecs_set_clones = "resp" := by decide
+theorem ecs_from_item_clones_src : ecs_from_item_clones = "item.msg" := by decide
+theorem ecs_from_item_calls_src : ecs_from_item_calls = "FindLowestTTL,Clone,SetRcode,setRespAD" := by decide
+theorem simple_to_item_copy_src : simple_to_item_copy = "1" := by decide
+theorem simple_from_item_copies_src : simple_from_item_copies = "3" := by decide
+/-- `respIsECSDependent` (`Ecs.respDep`). -/
+theorem ecs_resp_dep_cond_src : ecs_resp_dep_cond = "scope == 0" := by decide
+theorem ecs_resp_dep_rets_src : ecs_resp_dep_rets = "false | !FakeECSFQDNs.Has(fqdn)" := by decide
+/-- `setECS` creates a missing OPT with DO set on the upstream request (`Ecs.fwdDO`). -/
+theorem ecs_set_ecs_do_src : ecs_set_ecs_do = "dnsmsg.DefaultEDNSUDPSize, !isResp || msg.AuthenticatedData" := by decide
+/-- `writeUpstreamResponse`: filter, store, only then mask AD for this client (`Ecs.step`: stored message
+before `setAD`). -/
+theorem ecs_upstream_order_src : ecs_upstream_order = "rmHopToHopData,set,setRespAD,WriteMsg" := by decide
+theorem ecs_declined_src : ecs_declined = "ri.ECS != nil && ri.ECS.Subnet.Bits() == 0" := by decide
+theorem ecs_req_do_src : ecs_req_do = "dnsmsg.IsDO(req)" := by decide
+theorem dnsmsg_servfail_max_src : dnsmsg_servfail_max = "30" := by decide
+
 end Agd.Tie.C04
